@@ -135,6 +135,42 @@ PROPS = {
         'trusted': ["H-RND", "S256 as injective symbol"],
         'assumptions': ["H-RND"],
     },
+    'C14': {
+        'proofs': ['Ww.Proofs.C14'],
+        'gen_sections': ['Cookies'],
+        'drivers': [{'name': 'cook'}],
+        'reasons': ['C14.'],
+        'class_fields': {'setcookie': ['sso', 'cfgsecure', 'cfgsamesite', 'op', 'class', 'clear', 'domain', 'path', 'secure', 'samesite'], 'jar': ['after', 'status', 'names', 'sso'],
+                         'retrychain': ['cause', 'statuses'], 'retryreset': ['via', 'after'], 'ratelimit': ['enabled', 'logins', 'windowms', 'session', 'statuses', 'afterwindow']},
+        'nontrivial': {},
+        'rule': "cook driver: 7 configurations (secure x https / http-localhost ingress x path prefix x SSO domain with/without dot x same-site); every Set-Cookie of login, callback, the four logout variants, logout callback and "
+                "five error causes is compared attribute by attribute with the model; the jar of an RFC 6265 browser is inspected after callback and after each logout; distinct = (config, operation, cookie, attributes).",
+        'level_text': "Proof: Make/Clear always set HttpOnly and copy Secure/SameSite/Domain/Path; per-mode options (Secure = configured flag, SameSite=None only in SSO mode with that setting, standalone scoped to the ingress path without Domain, "
+                      "SSO to the configured domain); insecure cookies only with all-localhost http ingresses (validation); over the REGENERATED call-site table every cookie is set and cleared with one scope expression; jar theorem: after any history "
+                      "of consistently scoped Set-Cookies ending in an accepted clear of n, no cookie named n remains (induction over the history).",
+        'level_note': "Trusted: Lean kernel; call-site extractor (receiver-name heuristic for SetCookie methods, checked: no 'unknown:' entries); net/http cookie serialisation (leading dot dropped) compared by the driver; RFC 6265 browser (H-BROWSER) - the harness jar implements the same rules as the Lean jar.",
+        'technique': 'Lean 4: attribute lemmas, decide over the regenerated cookie call-site table, inductive jar invariant; per-attribute differential of every emitted Set-Cookie',
+        'trusted': ["H-BROWSER (RFC 6265)", "net/http SetCookie serialisation"],
+        'assumptions': ["H-BROWSER"],
+    },
+    'C17': {
+        'proofs': ['Ww.Proofs.C17'],
+        'gen_sections': ['Consts'],
+        'drivers': [{'name': 'cook'}],
+        'reasons': ['C17.'],
+        'class_fields': {'setcookie': ['op', 'class', 'clear'], 'jar': ['after'], 'retrychain': ['cause', 'statuses', 'sso'], 'retryreset': ['via', 'before', 'after'],
+                         'ratelimit': ['enabled', 'logins', 'windowms', 'session', 'statuses', 'afterwindow', 'maxage']},
+        'nontrivial': {'setcookie': lambda f: False, 'jar': lambda f: False},
+        'rule': "cook driver: a cookie-keeping browser is sent round the failing loop (callback without cookie, bad state, provider 5xx, provider 4xx, logout on an unconfigured host) 7 times per cause and configuration; "
+                "success after failures (login, logout callback); rate limit grid enabled x logins {0,1,2,5} x window {0.5,1,5,90 s} x with/without session with the jar clock moved past the window. distinct = (cause/config, status sequence).",
+        'level_text': "Proof: from any counter a browser can hold, at most three consecutive failures are answered with the retry redirect and the error page is terminal (induction over the failure run with a budget function; bound = the constant "
+                      "regenerated from error.go); 429 is never retried; with a session exactly `logins` visits pass and all further ones are 429 (for every logins, by induction), the counter is untouched by a 429; off/without session never 429. "
+                      "Model tied to the real handlers by following the chains.",
+        'level_note': "Trusted: Lean kernel; H-BROWSER (the retry cookie comes back: scope checked by C14 and by the chains). A host outside the SSO cookie domain makes the browser drop the counter cookie (endless 307): outside the quantifier, see DESIGN.",
+        'technique': 'Lean 4 induction over failure runs / login runs of the counter state machines + chain-following differential runs',
+        'trusted': ["H-BROWSER"],
+        'assumptions': ["H-BROWSER"],
+    },
     'C15': {
         'proofs': ['Ww.Proofs.C15'],
         'gen_sections': ['Routes', 'pkg/router/router.go', 'pkg/router/paths/paths.go'],
